@@ -55,8 +55,10 @@ func CheckC11(l *Lab, verifDir string) int {
 			Mutate: func(c *GWConfig) {
 				c.ExtraEnv = append(c.ExtraEnv, "GOGC=off", "GOMEMLIMIT=3GiB")
 				if kind == "ntlm" {
-					// the socket-buffer options take their own path through the websocket connection
-					c.SendBuf, c.ReceiveBuf = 65536, 65536
+					// the socket-buffer options take their own path through the websocket connection (a large send
+					// buffer only: small buffers in both directions under bidirectional floods stalled the kernel's
+					// flow control on loopback for minutes in the thorough tier, which says nothing about the gateway)
+					c.SendBuf, c.ReceiveBuf = 1<<20, 0
 				}
 			}})
 		if err != nil {
@@ -440,6 +442,11 @@ func c11Run(m *MultiFixture, cell c11Cell, seed int64) *c11Result {
 			_, k := bc.Ended()
 			res.Outcome += " host=" + endClass(k)
 		}
+	}
+	// a flow goroutine may sit in a blocked write: the connections are closed before waiting for it
+	t.Close()
+	if bc != nil {
+		bc.C.Close()
 	}
 	flows.Wait()
 	return res
